@@ -1056,9 +1056,9 @@ def run(tier, rng):
     violations = []
     import time
     t0 = time.time()
-    n_sessions = 180 if tier == 'quick' else 3000
-    n_cli = 90 if tier == 'quick' else 1000
-    n_pure = 1200 if tier == 'quick' else 10000
+    n_sessions = 150 if tier == 'quick' else 2000
+    n_cli = 90 if tier == 'quick' else 800
+    n_pure = 1200 if tier == 'quick' else 8000
     for k in LEDGERS:
         World.get(k)
     grid = grid_sessions()
